@@ -176,6 +176,8 @@ func (b *Build) Close() {
 const tickSrcFc = `package main
 
 import (
+	"time"
+
 	"github.com/karino2/folang/pkg/dict"
 	"github.com/karino2/folang/pkg/sys"
 )
@@ -197,12 +199,15 @@ func init() {
 	sys.VerifNow = func() int64 { return verifTicks }
 	dict.VerifNow = sys.VerifNow
 	verifBudget = sys.VerifTickBudget()
+	verifNsPerTick = sys.VerifNsPerTick()
 }
-`
+` + tickClockSrc
 
 const tickSrcNoDict = `package main
 
 import (
+	"time"
+
 	"github.com/karino2/folang/pkg/sys"
 )
 
@@ -221,8 +226,26 @@ func verifDone() { sys.VerifDone() }
 func init() {
 	sys.VerifNow = func() int64 { return verifTicks }
 	verifBudget = sys.VerifTickBudget()
+	verifNsPerTick = sys.VerifNsPerTick()
 }
+` + tickClockSrc
+
+// tickClockSrc: the simulated wall clock. Calls to time.Now / Since / Until / Sleep in package main are redirected
+// here by the rewriter, so any deadline or timestamp in the program reads simulated time: ticks x the scenario's
+// ns_per_tick (a "slow machine" is a large factor), plus whatever the program slept.
+const tickClockSrc = `
+var verifNsPerTick int64 = 1
+var verifSlept int64
+
+func verifTimeNow() time.Time {
+	return time.Unix(1700000000, 0).Add(time.Duration(verifTicks*verifNsPerTick + verifSlept))
+}
+func verifTimeSince(t time.Time) time.Duration { return verifTimeNow().Sub(t) }
+func verifTimeUntil(t time.Time) time.Duration { return t.Sub(verifTimeNow()) }
+func verifTimeSleep(d time.Duration)           { verifSlept += int64(d) }
 `
+
+var timeRedirect = map[string]string{"Now": "verifTimeNow", "Since": "verifTimeSince", "Until": "verifTimeUntil", "Sleep": "verifTimeSleep"}
 
 func tickCall(name string) ast.Stmt {
 	return &ast.ExprStmt{X: &ast.CallExpr{Fun: ast.NewIdent(name)}}
@@ -274,6 +297,22 @@ func instrumentDir(dir string, usesDict bool) {
 			}
 			return true
 		})
+		// redirect the wall clock: time.Now() -> verifTimeNow() etc. (only where the package name time is the import)
+		importsTime := false
+		for _, im := range f.Imports {
+			if im.Path.Value == `"time"` && im.Name == nil {
+				importsTime = true
+			}
+		}
+		if importsTime {
+			replaced := false
+			astReplaceTime(f, &replaced)
+			if replaced {
+				// keep the import used even if every use was redirected
+				f.Decls = append(f.Decls, &ast.GenDecl{Tok: token.VAR, Specs: []ast.Spec{&ast.ValueSpec{
+					Names: []*ast.Ident{ast.NewIdent("_")}, Type: &ast.SelectorExpr{X: ast.NewIdent("time"), Sel: ast.NewIdent("Duration")}}}})
+			}
+		}
 		var buf bytes.Buffer
 		if err := format.Node(&buf, fset, f); err != nil {
 			harnessFail("instrument: print %s: %v", path, err)
@@ -292,4 +331,27 @@ func instrumentDir(dir string, usesDict bool) {
 	if nFuncs == 0 {
 		harnessFail("instrument: no function found in %s", dir)
 	}
+}
+
+// astReplaceTime rewrites call targets time.Now / Since / Until / Sleep to the simulated clock.
+func astReplaceTime(f *ast.File, replaced *bool) {
+	ast.Inspect(f, func(n ast.Node) bool {
+		call, ok := n.(*ast.CallExpr)
+		if !ok {
+			return true
+		}
+		sel, ok := call.Fun.(*ast.SelectorExpr)
+		if !ok {
+			return true
+		}
+		x, ok := sel.X.(*ast.Ident)
+		if !ok || x.Name != "time" {
+			return true
+		}
+		if to, ok := timeRedirect[sel.Sel.Name]; ok {
+			call.Fun = ast.NewIdent(to)
+			*replaced = true
+		}
+		return true
+	})
 }
